@@ -269,6 +269,12 @@ def run(run):
         for j in range(nwrap):
             body = WRAPS[j % len(WRAPS)] % body
         ladders.append({"lib": [["D", body, False]], "page": "{{d}}", "opts": {}, "title": "Tt", "_timeout": 60})
+    # the colon-less compatibility spelling of parser functions, in the page and in a template body
+    for depth in (50, 150, 220, 320):
+        ladders.append({"lib": [["A", "[{{{1|}}}]", False]], "page": "{{#if|x|" * depth + "y" + "}}" * depth, "opts": {}, "title": "Tt", "_timeout": 60})
+        ladders.append({"lib": [["A", "[{{{1|}}}]", False]], "page": "{{#switch|a|a=" * depth + "y" + "}}" * depth, "opts": {}, "title": "Tt", "_timeout": 60})
+        ladders.append({"lib": [["A", "{{#if|x|" * depth + "{{{1|}}}" + "}}" * depth, False]], "page": "{{a|z}}", "opts": {}, "title": "Tt", "_timeout": 60})
+        ladders.append({"lib": [["A", "[{{{1|}}}]", False]], "page": "{{#if|x|{{lc|" * (depth // 2) + "Y" + "}}}}" * (depth // 2), "opts": {}, "title": "Tt", "_timeout": 60})
     for depth in (30, 60, 120):
         ladders.append({"lib": [["A", "[{{{1|}}}]", False]], "page": "{{a|{{#if:x|{{#switch:q|q=" * depth + "z" + "}}}}}}" * depth,
                         "opts": {}, "title": "Tt", "_timeout": 60})
